@@ -134,97 +134,58 @@ Proof.
   repeat split; vm_compute; reflexivity.
 Qed.
 
-(** ** (3) Currency.
-    Repaired in the Go code after the first version of this file: handleReplayedHeader appended the
-    replayed header to the voting view BEFORE validating the commit proof, so a REJECTED replay
-    left a proposed header behind without version bump or Mark*ViewUpdated (the former witness of
-    the [_refuted] theorems).  Now the replay is validated first and a rejected replay is the
-    identity on the kernel state ([C11_rejected_replay_is_identity]); the guard "no replayed
-    headers" ([plain_op]) of the former [_partial] theorems is gone.
-    What remains: an ACCEPTED replay still writes the header and the precommits into the voting view
-    without a version bump and relies on the commit check that follows to move the view on.  When
-    that check neither commits nor ends the round (the most voted precommit target is another block
-    - needs a majority of the power to have precommitted two blocks of the round), the voting view
-    stays changed and unmarked.  The guard [op_settles] / [settled] excludes exactly this outcome
-    (an accepted replay after which the voting view is still at the replayed height and round);
-    every other operation, and every rejected replay, satisfies it ([C11_plain_histories_are_settled]).
-    The state-machine half (a statement about versions) holds without any guard. *)
+(** ** (3) Currency.  All four kinds of kernel operation, histories without crash / restart.
+    Repaired in the Go code after earlier versions of this file (the witnesses of the former
+    [_refuted] theorems, both confirmed on the real mirror): handleReplayedHeader (a) appended the
+    replayed header to the voting view before validating the commit proof, so a REJECTED replay left
+    a proposed header behind, and (b) stored the header and precommits of an ACCEPTED replay without
+    version bump or MarkVotingViewUpdated, so both consumers stayed on the old content whenever the
+    commit check that follows did not move the voting view on.  Now a rejected replay is the
+    identity ([C11_rejected_replay_is_identity]) and an accepted one bumps and marks the voting view;
+    the guards of the former [_partial] theorems ("no replayed headers", later "every accepted replay
+    settles its round") are gone. *)
 
 Theorem C11_rejected_replay_is_identity : forall s hd cp s' res,
   handle_replay s hd cp = Ok (s', res) -> res <> 0 -> s' = s.
 Proof. exact rejected_replay_is_identity. Qed.
 Print Assumptions C11_rejected_replay_is_identity.
 
-Theorem C11_plain_histories_are_settled : forall ops s, forallb plain_op ops = true -> settled s ops = true.
-Proof. exact plain_settled. Qed.
-Print Assumptions C11_plain_histories_are_settled.
-
 (** every change of a kernel view comes with a later (height, round) or a version bump ... *)
-Theorem C11_kernel_version_bumped_on_change_partial : forall s o s' res,
-  MirrorAuth.auth_state s -> op_settles s o = true -> step s o = Ok (s', res) ->
+Theorem C11_kernel_version_bumped_on_change : forall s o s' res,
+  MirrorAuth.auth_state s -> step s o = Ok (s', res) ->
   exists new, st_ev s' = st_ev s ++ new /\
     (Forall ev_ok new -> kinv (views s) ->
      forall k, is_slot k -> get_view s' k = get_view s k \/ vlt (get_view s k) (get_view s' k)).
 Proof. exact kernel_version_bumped_on_change. Qed.
-Print Assumptions C11_kernel_version_bumped_on_change_partial.
+Print Assumptions C11_kernel_version_bumped_on_change.
 
 (** ... and with a Mark*ViewUpdated event carrying exactly the new view: after the step every
     kernel view is the last view marked for its slot during the step, or unchanged ([SY]) *)
-Theorem C11_kernel_views_are_last_marked_partial : forall s o s' res,
-  MirrorAuth.auth_state s -> op_settles s o = true -> step s o = Ok (s', res) -> SY s s'.
+Theorem C11_kernel_views_are_last_marked : forall s o s' res,
+  MirrorAuth.auth_state s -> step s o = Ok (s', res) -> SY s s'.
 Proof. exact SY_step. Qed.
-Print Assumptions C11_kernel_views_are_last_marked_partial.
+Print Assumptions C11_kernel_views_are_last_marked.
 
 (** [auth_state] (every signature held in a view is a valid one of that view's validator set)
     holds in every reachable state: Proofs/MirrorAuth.v [views_authentic]; it is what makes a
     commit-proof backfill that increased no signer set an exact no-op. *)
 
-(** an accepted replayed header whose commit proof also carries the validator's precommit for
-    another block: result 0, the voting view gains a proposed header and two precommit proofs,
-    same version, no event *)
-Theorem C11_kernel_version_bumped_on_change_refuted :
-  exists s o s' res,
-    s = init_state 1 n_vs /\ step s o = Ok (s', res) /\ res = 0 /\ op_settles s o = false /\
-    v_h (k_vot s') = v_h (k_vot s) /\ v_r (k_vot s') = v_r (k_vot s) /\ v_ver (k_vot s') = v_ver (k_vot s) /\
-    st_ev s' = st_ev s /\
-    (List.length (v_phs (k_vot s)), List.length (v_pc (k_vot s))) = (0%nat, 0%nat) /\
-    (List.length (v_phs (k_vot s')), List.length (v_pc (k_vot s'))) = (1%nat, 2%nat).
-Proof. exact kernel_version_bumped_on_change_refuted. Qed.
-Print Assumptions C11_kernel_version_bumped_on_change_refuted.
-
 (** After a gossip read that returned nothing: no nil-voted round is pending, all three slots are
-    marked sent and ARE the kernel's current committing / voting / next-round views.  All four
-    kinds of kernel operation; every accepted replay settles its round. *)
-Theorem C11_gossip_current_after_empty_read_partial : forall ih ivs ops s' ios s'' c,
-  forallb no_restart ops = true -> settled (ms_init ih ivs) ops = true ->
-  mrun (ms_init ih ivs) ops = Ok (s', ios) ->
+    marked sent and ARE the kernel's current committing / voting / next-round views. *)
+Theorem C11_gossip_current_after_empty_read : forall ih ivs ops s' ios s'' c,
+  forallb no_restart ops = true -> mrun (ms_init ih ivs) ops = Ok (s', ios) ->
   mstep s' MGRead = Ok (s'', c, IOGEmpty) ->
   gm_nil (m_g (ms_m s'')) = None /\
   forall k, is_slot k ->
     go_has_been_sent (gslot (m_g (ms_m s'')) k) = true /\
     go_v (gslot (m_g (ms_m s'')) k) = get_view (ms_k s'') k.
 Proof. exact gossip_current_after_empty_read. Qed.
-Print Assumptions C11_gossip_current_after_empty_read_partial.
-
-(** with an accepted replay that does not settle: slot marked sent, same (height, round, version) as
-    the kernel's voting view, but the kernel's view holds a proposed header the slot's view lacks *)
-Theorem C11_gossip_current_after_empty_read_refuted :
-  exists s' ios s'' c,
-    forallb no_restart w_replay_ops = true /\ settled (ms_init 1 n_vs) w_replay_ops = false /\
-    mrun (ms_init 1 n_vs) w_replay_ops = Ok (s', ios) /\ forallb ev_okb (st_ev (ms_k s')) = true /\
-    mstep s' MGRead = Ok (s'', c, IOGEmpty) /\
-    go_has_been_sent (gslot (m_g (ms_m s'')) ViewIDVoting) = true /\
-    triple (go_v (gslot (m_g (ms_m s'')) ViewIDVoting)) = triple (get_view (ms_k s'') ViewIDVoting) /\
-    go_v (gslot (m_g (ms_m s'')) ViewIDVoting) <> get_view (ms_k s'') ViewIDVoting /\
-    ~ view_le (get_view (ms_k s'') ViewIDVoting) (go_v (gslot (m_g (ms_m s'')) ViewIDVoting)).
-Proof. exact gossip_current_after_empty_read_refuted. Qed.
-Print Assumptions C11_gossip_current_after_empty_read_refuted.
+Print Assumptions C11_gossip_current_after_empty_read.
 
 (** After a state-machine read that returned nothing: lastSentVersion is the version of the
-    kernel's view of the entered round, when that round is the voting or the committing round.
-    ALL histories without crash / restart, replayed headers included (a replayed header never
-    changes a version: for every kernel operation each kernel view has the (height, round, version)
-    of the last view marked for its slot, [SYW]). *)
+    kernel's view of the entered round, when that round is the voting or the committing round
+    (for every kernel operation each kernel view has the (height, round, version) of the last view
+    marked for its slot, [SYW] - a consequence of [SY]). *)
 Theorem C11_kernel_views_agree_with_last_marked : forall s o s' res,
   MirrorAuth.auth_state s -> step s o = Ok (s', res) -> SYW s s'.
 Proof. exact SYW_step. Qed.
@@ -241,21 +202,6 @@ Theorem C11_sm_current_after_empty_read : forall ih ivs ops s' ios s'' c,
 Proof. exact sm_current_after_empty_read. Qed.
 Print Assumptions C11_sm_current_after_empty_read.
 
-(** ... but being current in the VERSION is not being current in the CONTENT: with an accepted
-    replayed header that does not settle its round the versions agree and the kernel's view of the entered round holds a proposed
-    header that the state machine was never given *)
-Theorem C11_sm_content_current_after_empty_read_refuted :
-  exists s' ios s'' c v0,
-    mrun (ms_init 1 n_vs) w_sm_ops = Ok (s', ios) /\ forallb ev_okb (st_ev (ms_k s')) = true /\
-    hd (IONone) ios = IOEnterView v0 /\
-    mstep s' MSMRead = Ok (s'', c, IOEmpty) /\
-    smm_last (sm_of s'') = v_ver (get_view (ms_k s'') ViewIDVoting) /\
-    triple v0 = triple (get_view (ms_k s'') ViewIDVoting) /\
-    flat_map sm_vrv ios = [] /\
-    ~ view_le (get_view (ms_k s'') ViewIDVoting) v0.
-Proof. exact sm_content_current_after_empty_read_refuted. Qed.
-Print Assumptions C11_sm_content_current_after_empty_read_refuted.
-
 (** why restarts are excluded from (1): the views are reloaded with version 1 *)
 Theorem C11_gossip_versions_across_restart_refuted :
   exists s' ios, mrun (ms_init 1 n_vs) w_restart_ops = Ok (s', ios) /\
@@ -268,26 +214,29 @@ Definition ex_cur_ops : list mop := [MEnter 1 0; MK (XOp (OpPrevote ex_pv)); MSM
 
 Example C11_current_example :
   exists s' ios, mrun (ms_init 1 n_vs) ex_cur_ops = Ok (s', ios) /\
-    forallb no_restart ex_cur_ops = true /\ settled (ms_init 1 n_vs) ex_cur_ops = true /\
-    forallb ev_okb (st_ev (ms_k s')) = true /\
+    forallb no_restart ex_cur_ops = true /\ forallb ev_okb (st_ev (ms_k s')) = true /\
     mstep s' MGRead = Ok (s', 0, IOGEmpty) /\ mstep s' MSMRead = Ok (s', 0, IOEmpty) /\
     (smm_h (sm_of s'), smm_r (sm_of s'), smm_last (sm_of s')) = triple (get_view (ms_k s') ViewIDVoting) /\
     triple (get_view (ms_k s') ViewIDVoting) = (1, 0, 2).
 Proof. eexists. eexists. split; [vm_compute; reflexivity|]. repeat split; vm_compute; reflexivity. Qed.
 
-(** Example for (3) with replayed headers: one that is rejected (its commit proof is empty - the
-    former witness, now the identity) and one that is accepted and commits height 1; the history is
-    settled and after the reads both consumers are current. *)
+(** Example for (3) with replayed headers (one validator): one that is rejected (empty commit proof -
+    the first former witness, now the identity), one that is accepted although the validator also
+    precommitted another block [1] of smaller hash, so that nothing is committed (the second former
+    witness: the voting view now goes to version 2 and is offered to gossip with the header and
+    both precommit proofs), and after the reads the gossip strategy is current. *)
+Definition ex_hd : hdr := mk_hdr [9] true 1 [] empty_cproof n_vs n_vs.
+Definition ex_sg (t : bytes) : ssig := mk_ssig [0; 0] (SVote 0 1 1 0 t).
 Definition ex_cp_none : cproof := mk_cproof 0 [1] [].
-Definition ex_cp_good : cproof := mk_cproof 0 [1] [([9], [w_sg [9]])].
+Definition ex_cp_two : cproof := mk_cproof 0 [1] [([9], [ex_sg [9]]); ([1], [ex_sg [1]])].
 Definition ex_replay_ops : list mop :=
-  [MK (XOp (OpReplay w_hd ex_cp_none)); MK (XOp (OpReplay w_hd ex_cp_good)); MGRead].
+  [MGRead; MK (XOp (OpReplay ex_hd ex_cp_none)); MK (XOp (OpReplay ex_hd ex_cp_two)); MGRead].
 
 Example C11_current_with_replays_example :
   exists s' ios, mrun (ms_init 1 n_vs) ex_replay_ops = Ok (s', ios) /\
-    forallb no_restart ex_replay_ops = true /\ settled (ms_init 1 n_vs) ex_replay_ops = true /\
-    forallb ev_okb (st_ev (ms_k s')) = true /\
+    forallb no_restart ex_replay_ops = true /\ forallb ev_okb (st_ev (ms_k s')) = true /\
     mstep s' MGRead = Ok (s', 0, IOGEmpty) /\
-    (triple (k_com (ms_k s')), triple (k_vot (ms_k s')), triple (k_nxt (ms_k s'))) = ((1, 0, 2), (2, 0, 1), (2, 1, 1)) /\
-    List.length (v_phs (k_com (ms_k s'))) = 1%nat.
+    map (fun v => (triple v, List.length (v_phs v), List.length (v_pc v))) (nth_deliveries ViewIDVoting ios)
+      = [((1, 0, 1), 0%nat, 0%nat); ((1, 0, 2), 1%nat, 2%nat)] /\
+    go_v (gslot (m_g (ms_m s')) ViewIDVoting) = k_vot (ms_k s').
 Proof. eexists. eexists. split; [vm_compute; reflexivity|]. repeat split; vm_compute; reflexivity. Qed.
